@@ -19,12 +19,16 @@
 (***************************************************************************)
 EXTENDS SysData, TLC, Json
 
-CONSTANTS NRes, MaxMem, MaxOuter, MaxInner, ArityFrom, Arity, Held
+CONSTANTS NRes, MaxMem, MaxOuter, MaxInner, ArityFrom, Arity, Held,
+          Handlers   \* 0: no custom-handler leaves, 1: included, 2: only shapes containing one
 
 Res0 == 1..NRes
 
 AllKinds == ResKinds \cup NoKinds
-LeafTabs == {Leaf(k, x) : k \in ResKinds, x \in Res0} \cup {Leaf(k, 0) : k \in NoKinds}
+LeafTabs == {Leaf(k, x) : k \in ResKinds \ HKinds, x \in Res0} \cup {Leaf(k, 0) : k \in NoKinds}
+            \cup (IF Handlers = 0 THEN {}
+                  ELSE UNION {{LeafH(k, x, y) : k \in HKinds, y \in Res0 \ (IF NRes > 1 THEN {x} ELSE {})}
+                                : x \in Res0})
 SeqsUpTo(S, n) == UNION {[1..m -> S] : m \in 1..n}
 
 D1(m) == {Compose(st, ms) : st \in Styles, ms \in SeqsUpTo(LeafTabs, m)}
@@ -35,10 +39,16 @@ D2 == IF MaxOuter = 0 THEN {}
 
 \* "kind k at position p, Unit elsewhere"; the resource rotates with the position
 ArityShape(n, p, k) ==
-  Compose("tuple", [i \in 1..n |-> IF i = p THEN Leaf(k, 1 + (p % NRes)) ELSE Leaf("Unit", 0)])
-Universe == (IF MaxMem > 0 THEN LeafTabs \cup D1(MaxMem) ELSE {}) \cup D2
+  Compose("tuple", [i \in 1..n |-> IF i # p THEN Leaf("Unit", 0)
+                                    ELSE IF k \in HKinds THEN LeafH(k, 1 + (p % NRes), 1 + ((p + 1) % NRes))
+                                    ELSE Leaf(k, 1 + (p % NRes))])
+HasH(tb) == \E i \in DOMAIN tb : tb[i].kind \in HKinds
+Universe0 == (IF MaxMem > 0 THEN LeafTabs \cup D1(MaxMem) ELSE {}) \cup D2
             \cup (IF Arity = 0 THEN {}
-                  ELSE UNION {{ArityShape(n, p, k) : p \in 1..n, k \in AllKinds} : n \in ArityFrom..Arity})
+                  ELSE UNION {{ArityShape(n, p, k) : p \in 1..n,
+                                                     k \in IF Handlers = 0 THEN AllKinds \ HKinds ELSE AllKinds}
+                                : n \in ArityFrom..Arity})
+Universe == IF Handlers = 2 THEN {tb \in Universe0 : HasH(tb)} ELSE Universe0
 
 WorldOf(P) == [x \in Res0 |-> IF x \in P THEN x ELSE Absent]
 HeldSet(P) == {NoBorrows(Res0)}
@@ -83,5 +93,5 @@ Emit ==
          alive |-> [x \in Res |-> IF x \in P THEN Class(f.borrow[x]) ELSE 3],
          after |-> [x \in Res |-> IF x \in P THEN Class(held0[x]) ELSE 3],
          w0 |-> world0, dflt |-> Dflt,
-         created |-> s.created, w1 |-> s.world])>>)
+         created |-> s.created, calls |-> s.calls, w1 |-> s.world])>>)
 =============================================================================
